@@ -320,3 +320,18 @@ def layout_sequence(texts):
         if ref is not None and got != ref:
             return False, f"after parsing {texts[:texts.index(text)]!r}, {text!r} parses to {got!r}; its own tree is {ref!r}"
     return True, "ok"
+
+
+def layout(text, canonical, holes):
+    """a source with layout characters / comment characters / string-body characters at `holes`: the tree must be the tree of the
+    canonical source; for the string families (canonical None) the single string token must hold the spelled characters"""
+    src = "".join(chr(c) for c in text)
+    tree, err = _real_parse(src, True)
+    if tree is None:
+        return False, f"{src!r} does not parse: {err}"
+    if canonical is not None:
+        ref, err = _real_parse(canonical, True)
+        return canon(tree) == canon(ref), f"{src!r} parses to {canon(tree)!r}, the canonical source {canonical!r} to {canon(ref)!r}"
+    toks = [t for t in tree.scan_values(lambda v: True) if getattr(t, "type", "") == "STRING_LIT"]
+    q = src.index("==") + 3
+    return len(toks) == 1 and str(toks[0]) == src[q:], f"{src!r}: string tokens {[str(t) for t in toks]!r}, spelled literal {src[q:]!r}"
